@@ -1,4 +1,5 @@
 import Nstd.Buffer.Model
+import Nstd.Buffer.TrAttr
 /-
   Target language of the translator `tools/gen_buffer.py`: the C++ bodies of Buffer.hpp are regenerated, statement by
   statement, into Lean functions over THIS machine (`lean/Nstd/Generated/BufferBody.lean`).  `PropsTr.lean` proves that
@@ -122,6 +123,25 @@ def nadd (a b : Option Nat) : Option Nat :=
 def nsub (a b : Option Nat) : Option Nat :=
   match a, b with
   | some a, some b => if b ≤ a then some (a - b) else none
+  | _, _ => none
+def nmul (a b : Option Nat) : Option Nat :=
+  match a, b with
+  | some a, some b => some (a * b)
+  | _, _ => none
+/-- `a / b` (division by 0 has no defined value) -/
+def ndiv (a b : Option Nat) : Option Nat :=
+  match a, b with
+  | some a, some b => if b = 0 then none else some (a / b)
+  | _, _ => none
+/-- `a >> b` -/
+def nshr (a b : Option Nat) : Option Nat :=
+  match a, b with
+  | some a, some b => some (a / 2 ^ b)
+  | _, _ => none
+/-- `a << b` (no wrap-around) -/
+def nshl (a b : Option Nat) : Option Nat :=
+  match a, b with
+  | some a, some b => some (a * 2 ^ b)
   | _, _ => none
 def nle (a b : Option Nat) : Option Bool :=
   match a, b with
